@@ -123,7 +123,28 @@ static void op_utf8(const char* hex) {
   free_exact(xb);
 }
 
+/* UTF8ALL <len> <prefix-hex>: every byte string of length len starting with the prefix, in lexicographic
+   order; prints FNV-1a digest of (count,status) pairs, number of strings, number valid, sum of counts */
+static void op_utf8all(size_t len, const char* prefhex) {
+  unsigned char pre[8]; size_t pl = hex_decode(prefhex, pre, 8);
+  unsigned char* b = malloc(len ? len : 1);
+  memset(b, 0, len ? len : 1); memcpy(b, pre, pl);
+  uint64_t h = 1469598103934665603ULL, n = 0, valid = 0, sum = 0;
+  for (;;) {
+    struct _cbor_unicode_status st = {.status = 7, .location = 77};
+    size_t c = _cbor_unicode_codepoint_count(b, len, &st);
+    h = (h ^ (uint64_t)c) * 1099511628211ULL; h = (h ^ (uint64_t)st.status) * 1099511628211ULL;
+    n++; if (st.status == _CBOR_UNICODE_OK) { valid++; sum += c; }
+    size_t i = len;
+    while (i > pl) { if (++b[i - 1] != 0) break; i--; }
+    if (i == pl) break;
+  }
+  printf("%" PRIu64 " %" PRIu64 " %" PRIu64 " %" PRIu64 "\n", h, n, valid, sum);
+  free(b);
+}
+
 int gen_op(int argc, char** w) {
+  if (argc == 3 && !strcmp(w[0], "UTF8ALL")) { op_utf8all(strtoull(w[1], 0, 10), w[2]); return 1; }
   if (argc == 2 && !strcmp(w[0], "SD")) { op_sd(w[1]); return 1; }
   if (argc == 4 && !strcmp(w[0], "ENC")) return op_enc(w[1], strtoull(w[2], 0, 10), strtoull(w[3], 0, 10));
   if (argc == 2 && !strcmp(w[0], "UTF8")) { op_utf8(w[1]); return 1; }
